@@ -967,6 +967,263 @@ def rule_compressed_level(ctx, units=None):
             ok = bound and after and must
             why = f"init_support({fmt_term(t0)}, {fmt_term(t1)}) at line {f.n(i0)['l']}: after all {len(assigns)} assignment(s) of the bit vector={after}; on every path={must}"
         obs.append(Ob('SUPPORT-ORDER', f, inits[-1] if inits else 0, 'sel1 is bound to the final compressed_intercepts', why, OK if ok else VIOLATED, arm='sel1'))
+        # INTERCEPT-BASE: the Elias-Fano universe of the level is prev_level_size - intercept_offset + 2 and must hold one value
+        # per segment plus the closing ones.  Every later intercept is clamped to prev_level_size - 1 before the base is
+        # subtracted; the base itself (the first intercept, which can be as large as Epsilon) must be bounded the same way,
+        # otherwise a level over fewer than ~Epsilon positions gets a universe smaller than its element count.
+        ini = [i for i in f.d.get('inits', []) if i.get('field') == 'intercept_offset']
+        PLS = ('param', 'prev_level_size')
+        if not ini:
+            obs.append(Ob('INTERCEPT-BASE', f, 0, 'intercept_offset is initialised in the constructor', 'no member initialiser found', UNDECIDED, arm='base'))
+        else:
+            t = _strip_cast(f.term(ini[0]['expr'], inline=True))
+            st, why = UNDECIDED, f"unrecognised initialiser `{fmt_term(t)[:80]}`"
+
+            def bound_ok(b):
+                import interval
+                l = interval.lin(b, PLS)
+                return bool(l) and l[0] == 'SIZE' and l[1] <= 0
+            if t[0] == 'deref' or (t[0] in ('param', 'local')):
+                st, why = VIOLATED, f"`{fmt_term(t)}` is used unbounded: the first intercept can exceed prev_level_size - 1 (tiny level, large Epsilon), the universe prev_level_size - base + 2 is then smaller than the number of stored intercepts"
+            elif t[0] == 'call' and t[1] in ('std::min',) and len(t[2]) == 2:
+                if any(bound_ok(a) for a in t[2]):
+                    st, why = OK, f"`{fmt_term(t)[:80]}`: bounded by prev_level_size"
+            elif t[0] == 'call' and t[1] == 'std::clamp' and len(t[2]) == 3:
+                if bound_ok(t[2][2]):
+                    st, why = OK, f"`{fmt_term(t)[:80]}`: bounded by prev_level_size"
+            elif t[0] == 'cond' and len(t) == 4 and (bound_ok(t[2]) or bound_ok(t[3])):
+                c0 = _strip_cast(t[1])
+                if c0[0] == 'op' and c0[1] in ('<', '<=', '>', '>='):
+                    st, why = OK, f"`{fmt_term(t)[:80]}`: bounded by prev_level_size"
+            obs.append(Ob('INTERCEPT-BASE', f, ini[0]['expr'], 'the base subtracted from the stored intercepts is bounded by prev_level_size - 1 like every other stored intercept', why, st, arm='base'))
+        # INTERCEPT-FAITHFUL: the value stored for a segment is its computed intercept, possibly lowered to prev_level_size - 1
+        # (an intercept above every rank can be lowered without increasing any error).  It is never *raised* by an amount
+        # that depends on the data: consecutive intercepts are each within Epsilon of a rank, so they can decrease by up to
+        # 2 * Epsilon; forcing the sequence to increase by clamping from below shifts a whole segment up by that much.
+        sets = [c for c in f.calls(pred=lambda nd: nd.get('cn') == 'set' and 'sd_vector_builder' in (nd.get('ct') or '')) if reachable(f, c)]
+        n_data = 0
+        for c in sets:
+            a = f.n(c)['args']
+            t = f.term(a[-1], inline=True) if a else ('lit', 0)
+            derefs = [x for x in _subterms_all(t) if x[0] == 'deref']
+            if not derefs:
+                continue
+            n_data += 1
+            raised = None
+            for x in _subterms_all(t):
+                if x[0] == 'call' and x[1] == 'std::clamp' and len(x[2]) == 3 and any(y[0] == 'deref' for y in _subterms_all(x[2][1])):
+                    raised = x[2][1]
+                if x[0] == 'call' and x[1] == 'std::max' and len(x[2]) == 2 and all(any(y[0] == 'deref' for y in _subterms_all(z)) for z in x[2]):
+                    raised = x
+            obs.append(Ob('INTERCEPT-FAITHFUL', f, c, 'a stored intercept is the computed one, at most lowered to prev_level_size - 1; never raised to a bound that depends on another intercept',
+                          f"`{fmt_term(t)[:100]}`" + (f": raised to at least `{fmt_term(raised)[:50]}`; raw intercepts of consecutive segments may decrease by up to 2 * Epsilon, "
+                                                       f"the segment is then shifted up by that amount" if raised else ''), VIOLATED if raised else OK, arm='lower-clamp'))
+        if sets and n_data == 0:
+            obs.append(Ob('INTERCEPT-FAITHFUL', f, sets[0], 'the stored intercepts derive from the computed ones', 'no builder.set() argument reads an intercept', UNDECIDED, arm='lower-clamp'))
+    return obs
+
+
+# ------------------------------------------------------------------------------------------ SENTINEL-EXCLUDED (siblings)
+def rule_upper_level_sentinel(ctx, which, units=None):
+    """Recursive construction: the keys of an upper level are the first keys of the segments of the level below.  When the
+    last data key is max - 1 the closing point (last + 1, n) has x == sentinel and may start a segment of its own; that
+    segment must not be fed to the next level as a key (its successor last + 1 + 1 wraps around and the builder throws
+    "Points must be increasing by x").  Both sibling builders (PGMIndex::build and the CompressedPGMIndex constructor) must
+    therefore derive the number of keys of the next level from a value adjusted under a comparison with `sentinel`."""
+    obs = []
+    tn = {'pgm': 'pgm::PGMIndex::build', 'compressed': 'pgm::CompressedPGMIndex::CompressedPGMIndex'}[which]
+    fs = [f for f in ctx.need(tn, units) if (len(f.params) == 6 if which == 'pgm' else (len(f.params) == 2 and not f.d.get('special')))]
+    SEG = ('make_segmentation', 'make_segmentation_par')
+
+    def mentions_sentinel(t):
+        return any(x[0] == 'static' and str(x[1]).endswith('sentinel') for x in _subterms_all(t))
+
+    for f in fs:
+        u = f.unit
+        lams = {g.id: g for g in u.functions.values() if g.d.get('parent_fn') == f.id}
+
+        def reads_segments(l):
+            return any(t_[0] in ('local', 'param', 'field') and t_[1] == 'segments' for r_ in l.returns() if l.n(r_)['ch'] for t_ in _subterms_all(l.term(l.n(r_)['ch'][0], inline=True)))
+
+        def lambda_of_local(fn, t):
+            t = _strip_cast(t)
+            if t[0] == 'local':
+                d = fn.defs.get(t[2], {})
+                if d.get('init'):
+                    it = _strip_cast(fn.term(d['init'], inline=False))
+                    if it[0] == 'lambda':
+                        # the closure's call operator instantiations are children of f; pick those declared at the same line
+                        ln = fn.n(d['init'])['l']
+                        return [g for g in lams.values() if g.d.get('line') == ln and g.name == 'operator()']
+            return []
+
+        sites = []
+        for c in f.calls():
+            nd = f.n(c)
+            ct = nd.get('ct') or ''
+            args = nd.get('args', [])
+            if not reachable(f, c):
+                continue
+            if ct.rsplit('::', 1)[-1] in SEG and len(args) >= 4:
+                inl = lambda_of_local(f, f.term(args[2], inline=False))
+                if inl and any(reads_segments(l) for l in inl):
+                    sites.append((c, args[0]))
+            elif nd.get('op') == '()' and nd.get('cd') in lams:
+                L = lams[nd['cd']]
+                inner = [x for x in L.calls() if (L.n(x).get('ct') or '').rsplit('::', 1)[-1] in SEG]
+                if not inner:
+                    continue
+                cnt = _strip_cast(L.term(L.n(inner[0])['args'][0], inline=False))
+                if cnt[0] != 'param':
+                    continue
+                k = [p_['name'] for p_ in L.params].index(cnt[1])
+                call_args = args[1:]       # args[0] is the closure object
+                inl = [lambda_of_local(f, f.term(a, inline=False)) for a in call_args]
+                if any(l_ and any(reads_segments(x) for x in l_) for l_ in inl) and k < len(call_args):
+                    sites.append((c, call_args[k]))
+        if not sites:
+            if which == 'compressed' and not any(True for _ in fs):
+                continue
+            obs.append(Ob('SENTINEL-EXCLUDED', f, 0, 'an upper-level segmentation call over the first keys of the level below', 'not found (EpsilonRecursive = 0 instantiation or unrecognised shape)',
+                          OK if _epsrec_zero(f) else UNDECIDED, arm='upper'))
+            continue
+        for (c, cnt_node) in sites:
+            seen_terms = []
+            # conditions that control the call site itself (e.g. the rejection of data containing the sentinel) say nothing
+            # about an adjustment of the count
+            site_conds = {(repr(ct_), lab) for (ct_, lab, cn) in _conds(f, c)}
+            todo = [(f, f.term(cnt_node, inline=False))]
+            done = set()
+            while todo and len(done) < 40:
+                fn, t = todo.pop()
+                key_ = (fn.id, repr(t))
+                if key_ in done:
+                    continue
+                done.add(key_)
+                seen_terms.append(t)
+                for x in _subterms_all(t):
+                    if x[0] == 'local' and len(x) == 3:
+                        d = fn.defs.get(x[2], {})
+                        if d.get('init'):
+                            todo.append((fn, fn.term(d['init'], inline=False)))
+                        for w in d.get('writes', []):
+                            todo.append((fn, fn.term(w, inline=False)))
+                            for (ct_, lab, cn) in _conds(fn, w):
+                                if fn is f and (repr(ct_), lab) in site_conds:
+                                    continue
+                                todo.append((fn, ct_))
+                        # writes through a by-reference capture in a local lambda (same declaration id)
+                        for L in (lams.values() if fn is f else ()):
+                            # only closures that are actually invoked in f
+                            if not any(f.n(c2).get('cd') == L.id and reachable(f, c2) for c2 in f.calls()):
+                                continue
+                            for j in L.all_ids():
+                                nj = L.n(j)
+                                tgt = None
+                                if nj['c'] == 'UnaryOperator' and nj['op'] in ('++', '--'):
+                                    tgt = nj['ch'][0]
+                                elif nj['c'] in ('BinaryOperator', 'CompoundAssignOperator') and nj['op'].endswith('=') and nj['op'] not in ('==', '!=', '<=', '>='):
+                                    tgt = nj['ch'][0]
+                                if tgt and L.n(L.strip(tgt)).get('d') == x[2] and L.n(L.strip(tgt)).get('captured'):
+                                    todo.append((L, L.term(j, inline=False)))
+                                    for (ct_, lab, cn) in _conds(L, j):
+                                        todo.append((L, ct_))
+                    if x[0] == 'call' and len(x) == 4 and isinstance(x[3], tuple) and x[3] and x[3][0] == 'local':
+                        for L in lambda_of_local(fn, x[3]):
+                            for r_ in L.returns():
+                                if L.n(r_)['ch']:
+                                    todo.append((L, L.term(L.n(r_)['ch'][0], inline=False)))
+            ok = any(mentions_sentinel(t) for t in seen_terms)
+            obs.append(Ob('SENTINEL-EXCLUDED', f, c, 'the number of keys fed to an upper-level segmentation is adjusted under a comparison with `sentinel` (a trailing segment that starts at the sentinel is not a key of the next level)',
+                          f"count `{fmt_term(f.term(cnt_node, inline=False))}`: " + ('its definition chain tests the sentinel' if ok else
+                          f"{len(seen_terms)} defining terms, none compares with `sentinel`: with last key == max - 1 the closing segment starts at max and its successor wraps around"),
+                          OK if ok else VIOLATED, arm='upper'))
+    return obs
+
+
+def _epsrec_zero(f):
+    return any(k == 'EpsilonRecursive' and str(v) == '0' for k, v in (f.targs or {}).items()) if isinstance(f.targs, dict) else False
+
+
+def _conds(fn, node):
+    g = graph(fn)
+    pos = fn.block_of(node)
+    out = []
+    if not pos:
+        return out
+    for (b, lab) in g.transitive_control_deps(pos[0]):
+        c = g.cond(b)
+        if c:
+            out.append((fn.term(c, inline=False), lab, c))
+    return out
+
+
+# ------------------------------------------------------------------------------------------ Bucketing: TABLE-WIDTH
+def rule_table_width(ctx, units=None):
+    """build_top_level(): the cells of the bit-compressed table are BIT_WIDTH(M) bits wide (or TopLevelBitSize bits, checked
+    against the same BIT_WIDTH(M)); every value stored into a cell must be <= M.  The stored values are segment indices
+    up to and including segments.size() (the end marker), bounded by an interval dataflow with facts v <= segments.size() + c."""
+    import interval
+    import p_multidim
+    obs = []
+    TL = ('field', 'top_level', THIS)
+    SIZE = ('call', 'std::vector::size', (), ('field', 'segments', THIS))
+    for f in ctx.need('pgm::BucketingPGMIndex::build_top_level', units):
+        g = graph(f)
+        # the width: a local initialised with BIT_WIDTH(X)
+        wdef = None
+        for vid, d in f.defs.items():
+            if d.get('init'):
+                x = p_multidim._bit_width_of(f.term(d['init'], inline=False))
+                if x is not None:
+                    wdef = (vid, d, x)
+        if wdef is None:
+            obs.append(Ob('TABLE-WIDTH', f, 0, 'the cell width is BIT_WIDTH(M) for a recognisable M', 'no local initialised with BIT_WIDTH(...) found', UNDECIDED, arm='width'))
+            continue
+        M = interval.lin(wdef[2], SIZE)
+        if not M or M[0] != 'SIZE':
+            obs.append(Ob('TABLE-WIDTH', f, wdef[1]['init'], 'the cell width is BIT_WIDTH(segments.size() + c)', f"BIT_WIDTH({fmt_term(wdef[2])[:60]})", UNDECIDED, arm='width'))
+            continue
+        cw = M[1]
+        stores = []
+        for i in f.all_ids():
+            nd = f.n(i)
+            if not reachable(f, i):
+                continue
+            lhs = rhs = None
+            if nd['c'] == 'CXXOperatorCallExpr' and nd.get('op') == '=' and len(nd.get('args', [])) == 2:
+                lhs, rhs = nd['args']
+            elif nd['c'] == 'BinaryOperator' and nd['op'] == '=':
+                lhs, rhs = nd['ch']
+            if lhs is None:
+                continue
+            lt = _strip_cast(f.term(lhs, inline=False))
+            if lt[0] == 'index' and _strip_cast(lt[1]) == TL:
+                stores.append((i, rhs))
+        if not stores:
+            obs.append(Ob('TABLE-WIDTH', f, 0, 'stores into top_level[...]', 'none found', UNDECIDED, arm='width'))
+            continue
+        bounds, unknown = interval.bounds_at(f, g, {i for i, _ in stores}, SIZE, assume_size_ge=1)
+        widened = set(interval.bounds_at.widened)
+        for (i, rhs) in stores:
+            v = _strip_cast(f.term(rhs, inline=False))
+            l = interval.lin(v, SIZE)
+            c = None
+            if l and l[0] == 'SIZE':
+                c = l[1]
+            elif l and isinstance(l[0], tuple):
+                b = bounds.get(i, {}).get(l[0])
+                c = None if b is None else b + l[1]
+            req = f"every value stored in a cell fits its width BIT_WIDTH(segments.size(){cw:+d})" if cw else 'every value stored in a cell fits its width BIT_WIDTH(segments.size())'
+            if c is None and l and isinstance(l[0], tuple) and l[0] in widened:
+                obs.append(Ob('TABLE-WIDTH', f, i, req, f"`{fmt_term(v)[:50]}` is incremented around a loop without a guard against segments.size()", VIOLATED, arm='store'))
+            elif c is None:
+                obs.append(Ob('TABLE-WIDTH', f, i, req, f"`{fmt_term(v)[:50]}`: no bound in terms of segments.size() reaches the store", UNDECIDED, arm='store'))
+            elif c <= cw:
+                obs.append(Ob('TABLE-WIDTH', f, i, req, f"`{fmt_term(v)[:50]}` <= segments.size(){c:+d}", OK, arm='store'))
+            else:
+                obs.append(Ob('TABLE-WIDTH', f, i, req, f"`{fmt_term(v)[:50]}` can be segments.size(){c:+d}, which needs one more bit than BIT_WIDTH(segments.size(){cw:+d}) whenever it is a power of two: the cell is truncated",
+                              VIOLATED, arm='store'))
     return obs
 
 
